@@ -889,6 +889,23 @@ class SVEval:
             paths = sub.fn_paths(target, bind, self._self_methods, self._depth + 1)
             if paths:
                 return [(["%s: %s" % (last, c) for c in cs], v, False, env) for (cs, v) in paths][:MAX_PATHS]
+        if f.startswith("Self::") and f.count("::") == 1 and self._self_methods is not None and self._depth < 8:
+            # `Self::method(args)`: a method of the same type that takes no receiver (or was turned into an associated function) — the same
+            # text as `self.method(args)`
+            if last in ENTRY_METHODS and args and args[0] is not None and args[0][0] == "sub":
+                extra = [self.arg_text(a, env) for a in e["args"][1:]]
+                return [([], ("rec", last, args[0][1], tuple(extra)), False, env)]
+            target = self._self_methods(last)
+            if target is not None and target.body is not None:
+                bind = {}
+                pnames = [b for p in target.sig["params"] if not p.get("self") for b in pat_bindings(p["pat"])]
+                for nm, av in zip(pnames, args):
+                    bind[nm] = av
+                sub = SVEval(self.S)
+                paths = sub.fn_paths(target, bind, self._self_methods, self._depth + 1)
+                if paths:
+                    return [(["%s: %s" % (last, c) for c in cs], v, False, env) for (cs, v) in paths][:MAX_PATHS]
+            return [([], ("call", last, args), False, env)]     # kept symbolic under the name `self.method(..)` would have
         if f in ("String::from", "Some", "Ok", "Box::new", "String::new") :
             if not args:
                 return [([], lit(""), False, env)]
